@@ -35,6 +35,10 @@ static uint64_t ip_prng = 0x243F6A8885A308D3ULL;
 static struct { void *p; size_t n; long id; } ip_tab[IP_TAB];
 static long ip_live = 0;
 static long ip_next_id = 0;
+/* per-operation event log (allocator-trace correspondence) */
+static int ip_record = 0;
+static long ip_ev_new[4096], ip_ev_freed[4096];
+static int ip_n_new = 0, ip_n_freed = 0;
 static long ip_double_free = 0;
 
 static inline unsigned ip_hash(void *p) { return (unsigned)(((uintptr_t)p >> 4) * 2654435761u) & (IP_TAB - 1); }
@@ -49,6 +53,7 @@ static void ip_add(void *p, size_t n) {
       ip_tab[idx].n = n;
       ip_tab[idx].id = ++ip_next_id;
       ip_live++;
+      if (ip_record && ip_n_new < 4096) ip_ev_new[ip_n_new++] = ip_tab[idx].id;
       if (ip_trace) fprintf(stderr, "T alloc %ld %zu\n", ip_tab[idx].id, n);
       return;
     }
@@ -62,6 +67,7 @@ static int ip_del(void *p, size_t *n) {
     if (ip_tab[idx].p == NULL) return 0;
     if (ip_tab[idx].p == p) {
       if (n) *n = ip_tab[idx].n;
+      if (ip_record && ip_n_freed < 4096) ip_ev_freed[ip_n_freed++] = ip_tab[idx].id;
       if (ip_trace) fprintf(stderr, "T free %ld\n", ip_tab[idx].id);
       ip_tab[idx].p = (void *)1;
       ip_live--;
@@ -71,6 +77,19 @@ static int ip_del(void *p, size_t *n) {
   return 0;
 }
 static long ip_live_count(void) { return ip_live; }
+/* the tracked allocation containing p: returns its event id (0 if none), size and base */
+static long ip_find(const void *p, size_t *n, void **base) {
+  for (unsigned idx = 0; idx < IP_TAB; idx++) {
+    void *q = ip_tab[idx].p;
+    if (q == NULL || q == (void *)1) continue;
+    if ((const char *)p >= (const char *)q && (const char *)p < (const char *)q + (ip_tab[idx].n ? ip_tab[idx].n : 1)) {
+      if (n) *n = ip_tab[idx].n;
+      if (base) *base = q;
+      return ip_tab[idx].id;
+    }
+  }
+  return 0;
+}
 
 static void ip_fill(void *p, size_t n) {
   if (!p || !n) return;
